@@ -133,6 +133,10 @@ type Conn struct {
 	// DelayReadDeadline delays every SetReadDeadline call by this long before it
 	// takes effect (models the calling goroutine being descheduled right there).
 	DelayReadDeadline time.Duration
+	// ErrWithData: the Read that hands out the last queued byte also returns the
+	// pending read error (io.Reader allows n > 0 together with err != nil;
+	// crypto/tls does it when a close_notify follows the data).
+	ErrWithData bool
 
 	mu           sync.Mutex
 	changed      chan struct{}
@@ -214,6 +218,10 @@ func (c *Conn) Read(p []byte) (int, error) {
 						c.rq = c.rq[1:]
 					}
 				}
+				var rerr error
+				if c.ErrWithData && len(c.rq) == 0 {
+					rerr = c.rerr
+				}
 				c.broadcastLocked()
 				cb := c.OnRead
 				c.mu.Unlock()
@@ -222,7 +230,7 @@ func (c *Conn) Read(p []byte) (int, error) {
 						cb(c, id, total)
 					}
 				}
-				return total, nil
+				return total, rerr
 			}
 			if c.Stream {
 				lim := len(p)
@@ -249,13 +257,17 @@ func (c *Conn) Read(p []byte) (int, error) {
 				c.consumed[id] = true
 				c.consumedN++
 			}
+			var rerr error
+			if c.ErrWithData && len(c.rq) == 0 {
+				rerr = c.rerr
+			}
 			c.broadcastLocked()
 			cb := c.OnRead
 			c.mu.Unlock()
 			if cb != nil && done {
 				cb(c, id, n)
 			}
-			return n, nil
+			return n, rerr
 		}
 		if c.rerr != nil {
 			err := c.rerr
@@ -406,6 +418,20 @@ func (c *Conn) Inject(data []byte) int64 {
 	c.nextInj++
 	id := c.nextInj
 	c.rq = append(c.rq, unit{data: append([]byte(nil), data...), id: id})
+	c.broadcastLocked()
+	c.mu.Unlock()
+	return id
+}
+
+// InjectWithErr queues data and the read error that follows it in one step, so
+// that (with ErrWithData) the Read handing out the last byte of data is
+// guaranteed to return the error as well.
+func (c *Conn) InjectWithErr(data []byte, err error) int64 {
+	c.mu.Lock()
+	c.nextInj++
+	id := c.nextInj
+	c.rq = append(c.rq, unit{data: append([]byte(nil), data...), id: id})
+	c.rerr = err
 	c.broadcastLocked()
 	c.mu.Unlock()
 	return id
